@@ -53,7 +53,11 @@ ShapeFamilies == {"scalar", "size1", "dims", "dims+2", "transposed", "dims+1", "
 TermKinds == {"matrix", "vector", "pair", "negmatrix", "negvector", "array0d", "array3d",
               "swappedpair", "pair3d", "float", "none", "list", "string"}
 BCArgKinds == {"ndarray", "float", "list", "none", "int"}
-Vias == {"ctor", "apply_BCs", "solvePDE", "bcterm"}
+\* where the periodic flags meet the library: the constructor, apply_BCs, the two solvers, the boundary-term
+\* builder - and the first three again for a variable built with BCsTerm_precalc=False (no boundary term is
+\* pre-computed, so the check cannot be left to the term builder alone)
+Vias == {"ctor", "apply_BCs", "solvePDE", "bcterm", "explicit",
+         "ctor_noprecalc", "apply_noprecalc", "explicit_noprecalc"}
 
 NTuples(c) == CASE Dim(c) = 1 -> {<<i>> : i \in NVals}
                 [] Dim(c) = 2 -> {<<i, j>> : i \in NVals, j \in NVals}
